@@ -74,6 +74,7 @@ func (e *Exec) canInline(fn *ssa.Function, depth int) bool {
 }
 
 func (fr *Frame) doCall(in ssa.Instruction, cc *ssa.CallCommon, fv Val, args []Val, callInstr *ssa.Call) Val {
+	fr.checkEscape(in, cc)
 	res := fr.doCall0(in, cc, fv, args, callInstr)
 	e := fr.e
 	if fr.depth == 0 && e.spec != nil && len(e.spec.CallCount) > 0 {
@@ -755,4 +756,64 @@ func (fr *Frame) checkCallPre(in ssa.Instruction, callee *ssa.Function, sp *Func
 			}
 		}
 	}
+}
+
+// checkEscape (kind "escape", opt-in through the function's check list): modular reasoning establishes a method's
+// precondition at the calls this function makes itself. An object of a module type whose methods carry preconditions
+// must therefore not be handed to code outside the module, which may call those methods without establishing them -
+// unless the callee's assumed contract declares (option keeps-preconditions) how it calls them; that declaration is
+// listed as an assumption.
+func (fr *Frame) checkEscape(in ssa.Instruction, cc *ssa.CallCommon) {
+	e := fr.e
+	if fr.depth != 0 || e.spec == nil || !e.checks["escape"] {
+		return
+	}
+	callee := cc.StaticCallee()
+	if callee == nil {
+		return // interface and dynamic calls: treated by their own rules
+	}
+	if p := pkgOf(callee); p != nil && strings.HasPrefix(p.Pkg.Path(), modulePath) {
+		return
+	}
+	sp := e.L.specs.Funcs[e.L.funcKey(callee)]
+	for _, a := range cc.Args {
+		T := a.Type()
+		if mi, ok := a.(*ssa.MakeInterface); ok {
+			T = mi.X.Type()
+		}
+		guarded := e.L.methodWithRequires(T)
+		if guarded == "" {
+			continue
+		}
+		if sp != nil && sp.Options["keeps-preconditions"] {
+			e.flag("escape-assumed: " + e.L.shortName(callee) + " is handed a " + T.String() + " and is assumed to call its methods as its contract's note says")
+			continue
+		}
+		e.oblige("escape", fr.anchor(in), fr.pc, "false", e.posOf(in.Pos()),
+			"a "+T.String()+" (its method "+guarded+" has a precondition) is handed to "+e.L.shortName(callee)+", outside the module, which may call the method without establishing it")
+	}
+}
+
+// methodWithRequires: the short key of a method of T (a pointer to a named type of this module) whose verified
+// contract has a requires clause, or "".
+func (L *Loader) methodWithRequires(T types.Type) string {
+	pt, ok := T.(*types.Pointer)
+	if !ok {
+		return ""
+	}
+	nt, ok := pt.Elem().(*types.Named)
+	if !ok || nt.Obj().Pkg() == nil || !strings.HasPrefix(nt.Obj().Pkg().Path(), modulePath) {
+		return ""
+	}
+	ms := L.prog.MethodSets.MethodSet(T)
+	for i := 0; i < ms.Len(); i++ {
+		m := L.prog.MethodValue(ms.At(i))
+		if m == nil {
+			continue
+		}
+		if sp := L.specs.Funcs[L.funcKey(m)]; sp != nil && !sp.Assumed && len(sp.Requires) > 0 {
+			return L.funcKeyShort(m)
+		}
+	}
+	return ""
 }
